@@ -11,7 +11,14 @@
 EXTENDS Files, Json, IOUtils
 Rec == ndJsonDeserialize(IOEnv.VERIF_TRACE)
 VARIABLE st
-Expected(r) == IF r.mode = "strong" THEN StrongRoles(r.layout) ELSE ExternalRoles(r.layout)
+\* r.broken: the paths of files whose content does not parse.  Content never changes a role: the run fails iff such a file has a
+\* role that is read (left / right, specification / program)
+Roles0(r) == IF r.mode = "strong" THEN StrongRoles(r.layout) ELSE ExternalRoles(r.layout)
+Expected(r) == LET e == Roles0(r)
+                   B == {r.broken[k] : k \in DOMAIN r.broken}
+               IN IF e.error THEN e
+                  ELSE IF r.mode = "strong" THEN (IF e.left \in B \/ e.right \in B THEN Err ELSE e)
+                  ELSE (IF e.spec \in B \/ e.program \in B THEN Err ELSE e)
 RolesOk(r) == r.obs = Expected(r)
 \* forward of one order = backward of the other, as sets of (axioms, conjecture) obligations
 \* (with a .spec file present the programs are not the two sides, so only the roles are compared)
